@@ -650,11 +650,19 @@ def run(ctx):
             ctx.inst("C10.R6", "%s#pattern[%d]" % (par.replace("blots_core::", ""), n_p), not missing,
                      "a pattern / comparison in the evaluator names %s%s" % (sorted(hit), "" if not missing else " but not the other spelling of %s: the word and the symbol form would evaluate differently" % missing), H.loc(node))
     pre = {}
+    same_arm = False
     for vs, body, a in match_arms(m_prefix):
         st = [H.last(H.path_def(f["e"])) for n in H.walk(body) if H.kind(n) == "Struct" for f in n["fields"] if f["name"] == "op"]
+        if not st:
+            # the arm's value is the operator itself (`Rule::invert | Rule::natural_not => UnaryOp::Not`), the node is built after the match
+            b_ = H.final_expr(body)
+            if H.kind(b_) == "Path" and "ast::UnaryOp::" in (H.path_def(b_) or ""):
+                st = [H.last(H.path_def(b_))]
+        same_arm = same_arm or {"invert", "natural_not"} <= set(vs)
         for v in vs:
             pre[v] = st[0] if st else None
-    ctx.inst("C10.R6", "prefix#invert==natural_not", pre.get("invert") is not None and pre.get("invert") == pre.get("natural_not"), "invert -> %s, natural_not -> %s" % (pre.get("invert"), pre.get("natural_not")), "blots-core/src/expressions.rs")
+    vpre = True if (pre.get("invert") is not None and pre.get("invert") == pre.get("natural_not")) or same_arm else (False if pre.get("invert") is not None and pre.get("natural_not") is not None else None)
+    ctx.inst("C10.R6", "prefix#invert==natural_not", vpre, "invert -> %s, natural_not -> %s%s" % (pre.get("invert"), pre.get("natural_not"), " (one arm)" if same_arm else ""), "blots-core/src/expressions.rs")
 
     # ---------------- R8 the lambda-body copy of infix_usage admits the same layout
     ctx.rule("C10.R8", "lambda_infix_usage is infix_usage with a smaller operator set: alternative by alternative the gaps before and after the operator admit the same layout (spaces / line breaks, optional / mandatory), so an expression keeps its meaning when it becomes a lambda body", floor=2)
